@@ -262,6 +262,19 @@ def check_schemas(rng, n):
             params = [a.arg for a in st.args.args]
             ok_nontrivial = 0
             for _ in range(n):
+                if params == ['enc', 'b']:
+                    args = _float_args(rng)
+                    tried += 1
+                    try:
+                        r = fn(*args)
+                    except Exception as e:   # noqa
+                        bad.append((st.name, f'raised {type(e).__name__}: {e}'))
+                        break
+                    if not r:
+                        bad.append((st.name, f'FALSE at {vars(args[0])} {args[1].hex()}'))
+                        break
+                    ok_nontrivial += 1
+                    continue
                 if ('container' in params or 'definition' in params) and 'packet' not in params:
                     args = _walk_args(rng, params)
                     tried += 1
@@ -311,6 +324,24 @@ def check_schemas(rng, n):
             if ok_nontrivial == 0:
                 bad.append((st.name, 'never evaluated'))
     return tried, bad
+
+
+def _float_args(rng):
+    """(float encoding object, field bytes): every supported encoding / size / byte order with random and special bit
+    patterns (zeros, ones, sign bit only, infinities, NaNs)"""
+    class FloatDataEncoding:
+        pass
+    e = FloatDataEncoding()
+    e.encoding = rng.choice(['IEEE754', 'IEEE754_1985', 'MILSTD_1750A'])
+    e.byte_order = rng.choice(['mostSignificantByteFirst', 'leastSignificantByteFirst'])
+    e.size_in_bits = 32 if e.encoding == 'MILSTD_1750A' else rng.choice([16, 32, 64])
+    e._struct_format = ('<' if e.byte_order == 'leastSignificantByteFirst' else '>') + {16: 'e', 32: 'f', 64: 'd'}[e.size_in_bits]
+    e.default_calibrator = None
+    e.context_calibrators = None
+    n = e.size_in_bits // 8
+    b = rng.choice([bytes(n), b'\xff' * n, b'\x80' + bytes(n - 1), bytes(n - 1) + b'\x80', b'\x7f\xf0' + bytes(n - 2),
+                    b'\x7c' + bytes(n - 1), bytes(rng.getrandbits(8) for _ in range(n))])
+    return [e, b]
 
 
 def _walk_args(rng, params):
